@@ -30,7 +30,7 @@ func init() {
 	evidenceInfo["C01"] = evInfo{
 		rule: "one evaluation = one project built once through kit.NewJapi (root from disk) or kit.NewJApiFromFile (root in memory, INCLUDEs from disk) on the sim-disk under a seeded fault plan. " + faults +
 			"Projects: generator (valid), light include graphs (ordinary, hostile parameters, static cycles), 29 special configurations (missing/empty/directory root, macro cycles, malformed INCLUDEs, NUL/invalid UTF-8, truncated directives, ...), corpus. " +
-			"Phase 'scaling' first builds 18 project shapes (tags, methods, bodies, type chains and stars, allOf chains, includes, pastes, macro chains, responses, JSON-RPC ...) at size n and 4n and requires <= 8x the seam operations (deterministic work measure; linear = 4x). " +
+			"Phase 'scaling' first builds 20 project shapes (tags, methods, bodies, type chains and stars, allOf chains, includes, pastes, macro chains, responses, JSON-RPC, macro and include doubling ...) at size n and 4n and requires <= 8x the seam operations (deterministic work measure; linear = 4x). " +
 			"Phase 'truncate' builds a document that uses every lexical construct cut at every byte offset x 3 line-ending conventions x 4 trailing bytes. " +
 			"Oracle: outcome is a catalog or a structured error value; no panic; the worker process survives; <= 5000 file accesses; no hang; no deadlock among goroutines the build starts itself; work (seam operations executed) <= 150 per byte served once above 400 000. " +
 			"non-trivial = at least one fault fired or the project is a hostile/special configuration; distinct = distinct (configuration kind, fired-fault multiset, access-log shape, outcome class) tuples",
@@ -484,7 +484,8 @@ func (e diskEngine) execScaling(c *Case, job *Job) *Result {
 	simrt.SetOSHook(nil)
 	var ops [2]uint64
 	var class [2]string
-	for i, n := range []int{50, 200} {
+	sizes := scaleSizes(shape)
+	for i, n := range sizes {
 		p := scaleProject(shape, n)
 		must(Materialise(p.Files))
 		simrt.ResetOps()
@@ -502,14 +503,21 @@ func (e diskEngine) execScaling(c *Case, job *Job) *Result {
 		res.count("skipped:scaling-project-rejected", 1)
 		return res
 	}
-	if ops[0] > 100 && ops[1] > 8*ops[0] {
+	floor := uint64(100) // below that the fixed cost of a build dominates
+	if strings.HasSuffix(shape, "-doubling") {
+		floor = 20
+	}
+	if ops[0] > floor && ops[1] > 8*ops[0] {
 		group := shape
 		if shape == "types-chain" || shape == "allof-chain" {
 			group = shape + " (user-type-chain)"
 		}
+		if strings.HasSuffix(shape, "-doubling") {
+			group = shape + " (expansion-doubling)"
+		}
 		if e.prop == "C01" {
 			res.violate("work-not-proportional", "work-not-proportional: "+group,
-				fmt.Sprintf("shape %q: %d seam operations at n=50, %d at n=200: 4x the input needs %.1fx the work (linear = 4x, quadratic = 16x); the build does not run in time proportional to the input", shape, ops[0], ops[1], float64(ops[1])/float64(ops[0])))
+				fmt.Sprintf("shape %q: %d seam operations at n=%d, %d at n=%d: 4x the input needs %.1fx the work (linear = 4x, quadratic = 16x); the build does not run in time proportional to the input", shape, ops[0], sizes[0], ops[1], sizes[1], float64(ops[1])/float64(ops[0])))
 		}
 	}
 	res.Detail, _ = json.Marshal(map[string]any{"shape": shape, "ops_n50": ops[0], "ops_n200": ops[1]})
